@@ -64,6 +64,20 @@ Theorem C07_policy_isotope_wavelength :
 Proof. exact wavelength_lookup_isotope. Qed.
 Print Assumptions C07_policy_isotope_wavelength.
 
+(* one long-lived provider: for EVERY history of repository additions and accessor calls, the call
+   made after the history [ops] returns what the model gives for its own arguments and the repository
+   content accumulated by the additions of [ops]; the accessor calls inside [ops] (same species
+   twice, element then isotope, other accessors, other charges or transitions) are irrelevant, and
+   that outcome obeys the property's policy *)
+Theorem C07_history_independent :
+  forall p n f ops a x1 x2 rs wi we,
+  hrun p n f st0 (ops ++ [HCall a x1 x2 rs wi we])
+  = hrun p n f st0 ops ++ [model_outcome (hcase p n f (hfinal st0 (filter is_set ops)) a x1 x2 rs wi we)]
+  /\ spec_ok (hcase p n f (hfinal st0 (filter is_set ops)) a x1 x2 rs wi we)
+             (model_outcome (hcase p n f (hfinal st0 (filter is_set ops)) a x1 x2 rs wi we)) = true.
+Proof. intros; split; [apply history_last_call | apply history_outcome_meets_spec]. Qed.
+Print Assumptions C07_history_independent.
+
 (* ------------------------------------------------------------------------------------------ (R) *)
 Section R.
   Variable L : Type.
